@@ -119,7 +119,8 @@ OneofDecl(n, fields) == [kind |-> "oneof", name |-> n, fields |-> fields]
 EnumDecl(n, options, unspec, prefix) == [kind |-> "enum", name |-> n, options |-> options, unspec |-> unspec, prefix |-> prefix, info |-> <<>>]
 \* <key, value atom>: the values are strings that need escaping in the printed options (quotes and backslash, control
 \* characters and a line break, non-ASCII inside and outside the basic plane); the harness concretises the atoms
-InfoKeys == << <<"delta", "quote">>, <<"alpha", "astral">>, <<"gamma", "ctl">>, <<"beta", "bmp">>, <<"epsilon", "plain">> >>
+\* (two keys that differ in case only: any order the printer imposes has to be total)
+InfoKeys == << <<"delta", "quote">>, <<"alpha", "astral">>, <<"gamma", "ctl">>, <<"beta", "bmp">>, <<"epsilon", "plain">>, <<"Alpha", "upper">> >>
 ServiceDecl(n, basePath, methods) == [kind |-> "service", name |-> n, basePath |-> basePath, methods |-> methods]
 Method(n, verb, path, request, hasResponse, response) ==
     [name |-> n, verb |-> verb, path |-> path, request |-> request, hasResponse |-> hasResponse, response |-> response]
@@ -436,6 +437,9 @@ OptionChoices(b, c, n) ==
 \* an option whose name ends in UNSPECIFIED is the explicit zero value only in first position; later it is an ordinary option
 EnumOptionChoices(n) == {[e |-> OptionNames[n + 1], rich |-> 0, label |-> ""]}
                         \cup (IF n >= 1 THEN {[e |-> "LIMIT_UNSPECIFIED", rich |-> 1, label |-> "option-named-unspecified"]} ELSE {})
+                        \* P schema.proto Enum.Option.number: a declared number (here 2, the number of an earlier option) does
+                        \* not move anything - options are numbered by position
+                        \cup (IF n >= 2 THEN {[e |-> "NUM2", rich |-> 1, label |-> "option-declares-number"]} ELSE {})
 
 \* R "Services": basePath, method, httpMethod, httpPath, request (required), response (optional: P file.proto APIMethod.response
 \* "when empty indicates a raw http response"); ":param" path segments name request fields (j5convert/service.go, proto/**/*.j5s)
